@@ -467,7 +467,7 @@ func c11SetDefaultsExhaustive(ctx *core.Ctx) {
 var (
 	optCDep   = []any{m{}, m{"condition": "service_healthy"}, m{"required": false}, m{"condition": "service_started", "required": true, "restart": true}, m{"condition": nil, "required": nil}, m{"restart": false}}
 	optCDepKO = []any{nil, "x", 1, l{}, true}
-	optCEnvIt = []any{"a.env", "", m{"path": "p.env"}, m{"path": "p.env", "required": false}, m{"path": "p.env", "required": true, "format": "raw"}, m{"path": "q.env", "format": "raw"}, m{"required": nil}, m{}}
+	optCEnvIt = []any{"a.env", "", m{"path": "p.env"}, m{"path": "p.env", "required": false}, m{"path": "p.env", "required": true, "format": "c11raw"}, m{"path": "q.env", "format": "c11raw"}, m{"required": nil}, m{}}
 	optCEnvKO = []any{nil, 1, true, l{"x"}, 2.5}
 )
 
